@@ -70,7 +70,7 @@ def oracle(ctx, n_cases):
         # the fit is scale-invariant: coordinates in A, but also tiny / large units
         sc = rng.choice([1e-6, 1e-4, 1e-2, 1.0, 1.0, 1.0, 1.0, 100.0])
         hist['scale %g' % sc] = hist.get('scale %g' % sc, 0) + 1
-        mode = rng.choice(['random', 'random', 'random', 'origin', 'halfturn', 'tiny'])
+        mode = rng.choice(['random', 'random', 'random', 'origin', 'halfturn', 'tiny', 'mirror'])
         hist['mode ' + mode] = hist.get('mode ' + mode, 0) + 1
         fixed_R = None
         if mode == 'halfturn':
@@ -118,7 +118,15 @@ def oracle(ctx, n_cases):
         noise = rng.choice([0.0, 0.0, 0.05, 0.3]) * sc
         if fixed_R is not None:
             R, noise = fixed_R, 0.0
-        tgt = [[v + rng.gauss(0, noise) if noise else v for v in apply(R, t, p)] for p in src]
+        if mode == 'mirror':
+            # the target is (close to) the mirror image of the source: the correlation matrix has a negative determinant and the most negative
+            # eigenvalue of the 4x4 form is the one of largest magnitude; the best PROPER rotation is still the eigenvector of the largest one
+            src = [[v * sc for v in p] for p in gen_set(rng, max(n, 4))]
+            n = len(src)
+            noise = rng.choice([0.0, 0.05, 0.3]) * sc
+        tgt = [[v + rng.gauss(0, noise) if noise else v for v in apply(R, t, ([-p[0], p[1], p[2]] if mode == 'mirror' else p))] for p in src]
+        if mode == 'mirror':
+            noise = max(noise, 1e-9 * sc)        # not an exactly rotated copy: the zero-deviation clauses do not apply
         cs, pc = centre(src)
         ct, qc = centre(tgt)
         case = {'source': src, 'target': tgt, 'noise': noise}
@@ -226,6 +234,16 @@ def oracle(ctx, n_cases):
                 dev = max(abs(rf[i][k] - tgt[i][k]) for i in range(n) for k in range(3))
                 if dev > 1e-6 * sc:
                     bad('fit_fragment: exact rigid copy is not superimposed on its targets', 0.0, dev)
+                if rng.random() < 0.4:
+                    # the same fragment placed on a second site (e.g. two disorder positions): the first call must not have changed the caller's lists
+                    R2, t2 = rand_rot(rng), [rng.uniform(-10, 10) * sc for _ in range(3)]
+                    tgt2 = [apply(R2, t2, p) for p in src]
+                    rf2, rms2 = qf.fit_fragment(frag, sub_src, [list(tgt2[i]) for i in sel])
+                    rf2 = [list(p) for p in rf2]
+                    dev2 = max(abs(rf2[i][k] - tgt2[i][k]) for i in range(n) for k in range(3))
+                    ev += 1
+                    if dev2 > 1e-6 * sc:
+                        bad('fit_fragment: a second fit of the same fragment list onto another exact copy is not superimposed on its targets', 0.0, dev2)
         if case_no < 2:
             common.sample(ctx, {'n': n, 'noise': noise, 'source': [[round(x, 3) for x in p] for p in src[:3]], 'rmsd_after_fit': r0})
     ctx.notes.setdefault('coverage_extra', {})['points_histogram'] = hist
